@@ -1,6 +1,7 @@
 package zv
 
 import (
+	"go/ast"
 	"fmt"
 	"go/token"
 	"go/types"
@@ -251,25 +252,11 @@ func checkC15(c *Ctx) {
 		}
 	}
 	// presets
+	// the preset Sugar stores: by exploring Sugar with the receiver's callerSkip fixed (c15SkipDelta)
 	sugarK := int64(-999)
 	if sf := c.Method(zp, "Logger", "Sugar"); sf != nil {
-		for _, st := range FieldStoresOf(sf, c.Named(zp, "Logger")) {
-			if st.Field == "callerSkip" {
-				l := evalLin(st.Instr.Val, nil, 0)
-				if l.syms["callerSkip"] == 1 && len(l.syms) == 1 {
-					sugarK = l.c
-				}
-			}
-		}
-	}
-	if sf := c.Method(zp, "Logger", "Sugar"); sf != nil && sugarK == -999 {
-		// ... or through the option that does exactly that (AddCallerSkip is additive, checked below)
-		for _, cl := range Calls(sf) {
-			if IsCallTo(cl, "go.uber.org/zap.AddCallerSkip") {
-				if v, ok := ConstInt(cl.Common().Args[0]); ok {
-					sugarK = v
-				}
-			}
+		if d, ok, _ := c15SkipDelta(c, sf); ok {
+			sugarK = d
 		}
 	}
 	stdK := int64(-999)
@@ -442,137 +429,105 @@ func shortChain(ch []string) string {
 	return strings.Join(s, "→")
 }
 
+// c15SkipDelta: the net change of the logger's callerSkip through a method of Logger / SugaredLogger that returns a
+// logger, decided by exploring the method (Logger and SugaredLogger methods and their helpers inline, no options, no
+// fields) with the receiver's callerSkip fixed to a concrete value and reading the field off every returned logger.
+func c15SkipDelta(c *Ctx, fn *ssa.Function) (delta int64, ok bool, why string) {
+	const start = 1000
+	if len(fn.Params) == 0 {
+		return 0, false, "no receiver"
+	}
+	recv := fn.Params[0]
+	lg, sg := c.Named(ZapPath, "Logger"), c.Named(ZapPath, "SugaredLogger")
+	if lg == nil || sg == nil {
+		return 0, false, "Logger / SugaredLogger do not resolve"
+	}
+	isT := func(t types.Type, n *types.Named) bool {
+		x, _ := types.Unalias(deref(t)).(*types.Named)
+		return x != nil && x.Obj() == n.Obj()
+	}
+	// the field of SugaredLogger that holds the *Logger
+	baseField := ""
+	if st, isS := sg.Underlying().(*types.Struct); isS {
+		for i := 0; i < st.NumFields(); i++ {
+			if isT(st.Field(i).Type(), lg) {
+				baseField = st.Field(i).Name()
+			}
+		}
+	}
+	field := "callerSkip"
+	if isT(recv.Type(), sg) {
+		field = baseField + ".callerSkip"
+	}
+	inl := func(h *ssa.Function) bool {
+		if h.Pkg == nil || h.Pkg.Pkg.Path() != ZapPath {
+			return false
+		}
+		r := h
+		for r.Parent() != nil {
+			r = r.Parent()
+		}
+		if rn := RecvNamed(r); rn != nil && (rn.Obj() == lg.Obj() || rn.Obj() == sg.Obj()) {
+			return true
+		}
+		return false
+	}
+	skipOf := func(st *ConcState, v ssa.Value) (int64, bool) {
+		if isT(v.Type(), sg) {
+			_, _, b := st.FieldOf(v, baseField)
+			if b == nil {
+				// the receiver itself (or a logger whose base was never replaced)
+				if k, isInt, _ := st.FieldOf(v, baseField+".callerSkip"); isInt {
+					return k, true
+				}
+				return 0, false
+			}
+			v = b
+		}
+		k, isInt, _ := st.FieldOf(v, "callerSkip")
+		return k, isInt
+	}
+	var results []string
+	seqs, trunc := ConcPaths(fn, ConcCfg{
+		Inline: inl, InlineAny: inl, MaxDepth: 8, MaxStates: 200000, Unroll: true,
+		InitFields: []FieldVal{{Obj: recv, Field: field, Val: start}},
+		SliceLen:   func(p *ssa.Parameter) (int64, bool) { return 0, true },
+		Event: func(in ssa.Instruction, st *ConcState) string {
+			r, isR := in.(*ssa.Return)
+			if !isR || len(r.Results) != 1 {
+				return ""
+			}
+			if k, ok := skipOf(st, r.Results[0]); ok {
+				return "ret " + itoa(int(k-start))
+			}
+			return "ret ?" + st.Desc(r.Results[0])
+		},
+	})
+	if trunc || len(seqs) == 0 {
+		return 0, false, "path exploration incomplete"
+	}
+	for _, sq := range seqs {
+		toks := strings.Split(sq, " ; ")
+		results = append(results, toks[len(toks)-1])
+	}
+	sort.Strings(results)
+	first := results[0]
+	for _, r := range results {
+		if r != first {
+			return 0, false, "paths disagree: " + strings.Join(results, ", ")
+		}
+	}
+	if strings.HasPrefix(first, "ret ?") || first == "panic" {
+		return 0, false, "not evident: " + first
+	}
+	var k int
+	fmt.Sscanf(first, "ret %d", &k)
+	return int64(k), true, ""
+}
+
 // c15Conversions computes the net callerSkip change of derive/convert methods.
 func c15Conversions(c *Ctx, sugarK int64) {
 	zp := ZapPath
-	memo := map[*ssa.Function]*lin{}
-	var delta func(fn *ssa.Function, depth int) lin
-	var valDelta func(fn *ssa.Function, v ssa.Value, depth int) lin
-	unknown := func(s string) lin { return lin{syms: map[string]int64{"?" + s: 1}} }
-	valDelta = func(fn *ssa.Function, v ssa.Value, depth int) lin {
-		if depth > 8 {
-			return unknown("depth")
-		}
-		v = Strip(v)
-		switch x := v.(type) {
-		case *ssa.Parameter:
-			if len(fn.Params) > 0 && x == fn.Params[0] {
-				return lin{}
-			}
-		case *ssa.UnOp:
-			// s.base
-			if fa, ok := x.X.(*ssa.FieldAddr); ok && fieldName(fa.X.Type(), fa.Field) == "base" && Strip(fa.X) == ssa.Value(fn.Params[0]) {
-				return lin{}
-			}
-		case *ssa.Alloc:
-			tn := TypeName(deref(x.Type()))
-			if strings.HasSuffix(tn, "SugaredLogger") {
-				for _, st := range FieldStoresOf(fn, c.Named(zp, "SugaredLogger")) {
-					if st.Addr.X == ssa.Value(x) && st.Field == "base" {
-						return valDelta(fn, st.Instr.Val, depth+1)
-					}
-				}
-			}
-			if strings.HasSuffix(tn, "Logger") {
-				// clone := *log : base value = the stored whole value
-				base := lin{}
-				if s := singleStoreLoose(x); s != nil {
-					if u, ok := s.(*ssa.UnOp); ok {
-						base = valDelta(fn, u.X, depth+1)
-					}
-				}
-				return base
-			}
-		case *ssa.Call:
-			callee := StaticCallee(x)
-			if callee != nil && len(x.Call.Args) > 0 && callee.Signature.Recv() != nil {
-				rt := TypeName(deref(callee.Signature.Recv().Type()))
-				if rt == "zap.Logger" || rt == "zap.SugaredLogger" {
-					d := valDelta(fn, x.Call.Args[0], depth+1).add(delta(callee, depth+1), 1)
-					if callee.Name() == "WithOptions" && len(x.Call.Args) == 2 {
-						// options given right here: AddCallerSkip(k) adds k (it is additive, R15.1); any other option leaves the skip alone
-						if sl, ok := x.Call.Args[1].(*ssa.Slice); ok {
-							if va, ok := sl.X.(*ssa.Alloc); ok && va.Referrers() != nil {
-								for _, r := range *va.Referrers() {
-									ia, ok := r.(*ssa.IndexAddr)
-									if !ok || ia.Referrers() == nil {
-										continue
-									}
-									for _, r2 := range *ia.Referrers() {
-										st, ok := r2.(*ssa.Store)
-										if !ok {
-											continue
-										}
-										if oc, ok := Strip(st.Val).(*ssa.Call); ok && IsCallTo(oc, "go.uber.org/zap.AddCallerSkip") {
-											if k, isC := ConstInt(oc.Call.Args[0]); isC {
-												d = d.add(lin{c: k}, 1)
-											} else {
-												d = d.add(unknown("AddCallerSkip("+Desc(oc.Call.Args[0])+")"), 1)
-											}
-										}
-									}
-								}
-							}
-						}
-					}
-					// plus callerSkip adjustments applied in THIS function to the call's result
-					for _, st := range FieldStoresOf(fn, c.Named(zp, "Logger")) {
-						if st.Field == "callerSkip" && Strip(st.Addr.X) == ssa.Value(x) {
-							l := evalLin(st.Instr.Val, nil, 0)
-							if l.syms["callerSkip"] == 1 && len(l.syms) == 1 {
-								d = d.add(lin{c: l.c}, 1)
-							} else {
-								d = d.add(unknown("callerSkip="+l.String()), 1)
-							}
-						}
-					}
-					return d
-				}
-			}
-		case *ssa.Phi:
-			var first *lin
-			for _, e := range x.Edges {
-				l := valDelta(fn, e, depth+1)
-				if first == nil {
-					first = &l
-				} else if first.String() != l.String() {
-					return unknown("paths disagree: " + first.String() + " vs " + l.String())
-				}
-			}
-			if first != nil {
-				return *first
-			}
-		}
-		return unknown(Desc(v))
-	}
-	delta = func(fn *ssa.Function, depth int) lin {
-		if m, ok := memo[fn]; ok {
-			if m == nil {
-				return lin{}
-			}
-			return *m
-		}
-		memo[fn] = nil
-		var res *lin
-		for _, r := range Returns(fn) {
-			rv := RetVals(r)
-			if len(rv) == 0 {
-				continue
-			}
-			l := valDelta(fn, rv[0], depth)
-			if res == nil {
-				res = &l
-			} else if res.String() != l.String() {
-				u := unknown("returns disagree: " + res.String() + " vs " + l.String())
-				res = &u
-			}
-		}
-		if res == nil {
-			res = &lin{}
-		}
-		memo[fn] = res
-		return *res
-	}
 	want := map[string]int64{"(*go.uber.org/zap.Logger).Sugar": sugarK, "(*go.uber.org/zap.SugaredLogger).Desugar": -sugarK}
 	for _, t := range []string{"Logger", "SugaredLogger"} {
 		named := c.Named(zp, t)
@@ -582,16 +537,17 @@ func c15Conversions(c *Ctx, sugarK int64) {
 		ms := c.SSA.MethodSets.MethodSet(types.NewPointer(named))
 		for i := 0; i < ms.Len(); i++ {
 			fn := c.SSA.MethodValue(ms.At(i))
-			if fn == nil || fn.Signature.Results().Len() != 1 {
+			if fn == nil || fn.Signature.Results().Len() != 1 || !ast.IsExported(fn.Name()) {
+				// unexported helpers have no contract of their own: they are explored inline from the exported methods
 				continue
 			}
 			rt := TypeName(fn.Signature.Results().At(0).Type())
 			if rt != "*zap.Logger" && rt != "*zap.SugaredLogger" {
 				continue
 			}
-			d := delta(fn, 0)
+			d, ok, why := c15SkipDelta(c, fn)
 			w := want[fn.String()]
-			c.Check(len(d.syms) == 0 && d.c == w, "R15.2", fn.String(), "net-skip-change", fn.Pos(), "net change of the logger's callerSkip through %s is %s (must be %d: Sugar adds %d, Desugar removes it, everything else keeps it)", fn.Name(), d, w, sugarK)
+			c.Check(ok && d == w, "R15.2", fn.String(), "net-skip-change", fn.Pos(), "net change of the logger's callerSkip through %s, by exploring it with the receiver's callerSkip fixed (no options, no fields): %d %s (must be %d: Sugar adds %d, Desugar removes it, everything else keeps it)", fn.Name(), d, why, w, sugarK)
 		}
 	}
 	// clone copies callerSkip (struct copy)
